@@ -393,6 +393,7 @@ def validate(ctx, trace, prefix, chunk=1200, workers=None):
                               name, at, scen[0].get("id"), json.dumps(scen[min(at, len(scen) - 1)])[:1500]),
                           {"module": TRACE, "invariant": name, "at_event": at, "schedule": json.loads(scen[0]["sched"]),
                            "trace": [{k: v for k, v in ev.items() if k != "sched"} for ev in scen[:at + 1]]})
+    account_trace(ctx, spans, events)
     ctx.cov["traces_validated_against_impl"] += len(spans)
     ctx.cov["trace_events_validated"] += len(events) - len(spans)
     ctx.stage("trace-validation", scenarios=len(spans), events=len(events) - len(spans), invariants=invs, wall=round(time.time() - t0, 1))
@@ -418,11 +419,34 @@ def scenario_sig(scen):
 
 
 def account(ctx, scheds):
-    for s in scheds:
-        ctx.count_case([s["cfg"], s["sig"], s["class"]], s.get("nfaults", 0) > 0 or s["class"] != "c11")
+    """samples: a few of the schedules of this run, written out"""
     rnd = random.Random(ctx.seed)
     for s in rnd.sample(scheds, min(3, len(scheds))):
-        ctx.sample({"schedule": s["id"], "sig": s["sig"], "class": s["class"]})
+        ctx.sample({"id": s["id"], "sig": s["sig"], "class": s["class"], "cfg": s["cfg"], "steps": s["steps"]})
+
+
+def account_trace(ctx, spans, events):
+    """one evaluation per scenario executed on the real code; non-trivial = a fault fired, an environment event
+    happened or two actors were in flight together; distinct by (configuration, what really happened)"""
+    for (s, e) in spans:
+        scen = events[s - 1:e]
+        fired = [ev for ev in scen if ev["ev"] == "Call" and ev["res"] != "ok"]
+        envs = [ev for ev in scen if (ev["ev"] == "Start" and ev["t"] == "hdl") or (ev["ev"] == "Env" and ev["e"] != "Restart")]
+        conc, live = False, set()
+        order = []
+        for ev in scen:
+            if ev["ev"] == "Start":
+                live.add(ev["a"])
+                conc = conc or len(live) > 1
+            elif ev["ev"] == "End":
+                live.discard(ev["a"])
+            elif ev["ev"] == "Call" and ev["res"] == "crash":
+                live.clear()
+            if conc and ev["ev"] in ("Call", "Lock"):
+                order.append(ev["a"])
+        key = [scen[0]["cfg"], [(ev["a"], ev["k"], ev["verb"], ev["kind"], ev["res"]) for ev in fired],
+               [(ev.get("e"), ev.get("p")) for ev in envs], order]
+        ctx.count_case(key, bool(fired or envs or conc))
 
 
 def check_K(ctx, dry, model_k):
